@@ -9,7 +9,8 @@ the root) and the current directory (path None).  Oracle:
       a name without '..' components (and not absolute once the './' marker is removed) is always accepted and lands
       at out/<name>;
   is_relative_to(p, base) for normalised absolute p: True exactly when base's normal form is a component-wise prefix;
-  is_path_valid(p, base) for absolute p: True exactly when p's normal form is inside base's normal form;
+  is_path_valid(p, base) for absolute p: True exactly when p's normal form is inside base's normal form (a relative
+      base is taken relative to the current directory);
   check_archive_path(name): True exactly when the name is relative and no prefix of it climbs above its start.
 Prints one JSON line; `replay <json-file>` re-runs one recorded case."""
 import itertools, json, os, pathlib, sys, time
@@ -61,13 +62,15 @@ def case_sanitize(name, out):
 
 
 def case_relative(p, base):
-    want = inside(p, os.path.normpath(base))
-    try:
-        got = helpers.is_relative_to(pathlib.Path(p), pathlib.Path(base))
-    except Exception as e:  # noqa
-        return "is_relative_to(%r, %r) raised %s" % (p, base, type(e).__name__)
-    if bool(got) != want:
-        return "is_relative_to(%r, %r) = %r, component-wise containment says %r" % (p, base, got, want)
+    want = inside(p, norm_abs(base))
+    if os.path.isabs(base):
+        try:
+            got = helpers.is_relative_to(pathlib.Path(p), pathlib.Path(base))
+        except Exception as e:  # noqa
+            return "is_relative_to(%r, %r) raised %s" % (p, base, type(e).__name__)
+        if bool(got) != want:
+            return "is_relative_to(%r, %r) = %r, component-wise containment says %r" % (p, base, got, want)
+    # is_path_valid takes a relative destination relative to the current directory
     try:
         got = helpers.is_path_valid(pathlib.Path(p), pathlib.Path(base))
     except Exception as e:  # noqa
@@ -134,11 +137,11 @@ def main():
         runs += 1
         note({"kind": "arcname", "name": nm}, "C16", case_arcname(nm))
         if nm.startswith("/") and not nm.startswith("//"):
-            p = os.path.normpath(nm)
-            for base in OUTS:
-                if base is not None and base.startswith("/"):
-                    runs += 1
-                    note({"kind": "relative", "p": p, "base": base}, "C03", case_relative(p, base))
+            for p in (os.path.normpath(nm), os.path.normpath(os.getcwd() + nm)):
+                for base in OUTS:
+                    if base is not None:
+                        runs += 1
+                        note({"kind": "relative", "p": p, "base": base}, "C03", case_relative(p, base))
     print(json.dumps({"runs": runs, "names": len(seen), "seconds": round(time.time() - t0, 1), "failures": bad}))
     return 0
 
